@@ -72,14 +72,14 @@ namespace CV
 theorem kept_of_unprot (i : Instr) (h : i.prot = false) : Kept (.instr i) = false := by
   simp [Kept, h]
 
-theorem pair_second_unprot (i1 i2 : Instr) (a x y : Option String)
-    (h : (pairRules i1 i2 a x y).second = true) : i2.prot = false := by
+theorem pair_second_unprot (i1 i2 : Instr) (a x y : Option String) (fl : OFlags)
+    (h : (pairRules i1 i2 a x y fl).second = true) : i2.prot = false := by
   cases hp : i2.prot with
   | false => rfl
   | true => simp [pairRules, hp] at h
 
-theorem pair_first_unprot (i1 i2 : Instr) (a x y : Option String)
-    (h : (pairRules i1 i2 a x y).first = true) : i1.prot = false := by
+theorem pair_first_unprot (i1 i2 : Instr) (a x y : Option String) (fl : OFlags)
+    (h : (pairRules i1 i2 a x y fl).first = true) : i1.prot = false := by
   cases hp : i1.prot with
   | false => rfl
   | true => simp [pairRules, hp] at h
@@ -100,8 +100,8 @@ theorem foldCmp_facts (r : Option String) (m : Mn) (i1 i2 : Instr) (h : foldCmp 
       | true => split at h <;> simp [hp] at h
     · simp at h
 
-theorem pair_both_notKept (i1 i2 : Instr) (a x y : Option String)
-    (h : (pairRules i1 i2 a x y).both = true) :
+theorem pair_both_notKept (i1 i2 : Instr) (a x y : Option String) (fl : OFlags)
+    (h : (pairRules i1 i2 a x y fl).both = true) :
     Kept (.instr i1) = false ∧ Kept (.instr i2) = false := by
   simp only [pairRules, Bool.or_eq_true, Bool.and_eq_true] at h
   rcases h with ((h | h) | h) | h
@@ -115,8 +115,8 @@ theorem pair_both_notKept (i1 i2 : Instr) (a x y : Option String)
   · obtain ⟨hm, hp⟩ := foldCmp_facts _ _ _ _ h
     exact ⟨by simp [Kept, hm], kept_of_unprot _ hp⟩
 
-theorem pair_swap_notKept (i1 i2 : Instr) (a x y : Option String)
-    (h : (pairRules i1 i2 a x y).swap = true) :
+theorem pair_swap_notKept (i1 i2 : Instr) (a x y : Option String) (fl : OFlags)
+    (h : (pairRules i1 i2 a x y fl).swap = true) :
     Kept (.instr i1) = false ∧ Kept (.instr i2) = false := by
   simp only [pairRules, Bool.and_eq_true, Bool.or_eq_true, beq_iff_eq] at h
   obtain ⟨h1, h2⟩ := h
@@ -196,11 +196,11 @@ theorem knowStage_code (s : OptSt) (i2 : Instr) (d : PairDecision) :
   unfold knowStage; split <;> simp
 
 theorem knowStage_rsecond (s : OptSt) (i2 : Instr) (d : PairDecision)
-    (hd : d = pairRules i1 i2 s.acc s.xr s.yr) (h : (knowStage s i2 d).2 = true) : i2.prot = false := by
+    (hd : d = pairRules i1 i2 s.acc s.xr s.yr s.flags) (h : (knowStage s i2 d).2 = true) : i2.prot = false := by
   unfold knowStage at h
   split at h
   · exact update_rm_unprot _ _ _ _ _ _ _ h
-  · subst hd; exact pair_second_unprot i1 i2 s.acc s.xr s.yr h
+  · subst hd; exact pair_second_unprot i1 i2 s.acc s.xr s.yr s.flags h
 
 theorem getElem?_set_ne (code : Array Line) (i j : Nat) (x : Line) (h : i ≠ j) :
     (code.setIfInBounds i x)[j]? = code[j]? := by
@@ -279,16 +279,16 @@ theorem optStep_inv (c : Code) (s : OptSt) (h : Inv c s.code) : OutInv c (optSte
             | none => exact h2
             | some i2 =>
               simp only
-              have kc := knowStage_code s2 i2 (pairRules i1 i2 s2.acc s2.xr s2.yr)
+              have kc := knowStage_code s2 i2 (pairRules i1 i2 s2.acc s2.xr s2.yr s2.flags)
               apply applyStage_inv
               · rw [kc.1]; exact h2
               · rw [kc.1, kc.2]; exact instrAt_some hi1
               · rw [kc.1]; exact instrAt_some hi2
               · rw [kc.2]; exact hne
-              · exact pair_swap_notKept _ _ _ _ _
-              · exact pair_both_notKept _ _ _ _ _
+              · exact pair_swap_notKept _ _ _ _ _ _
+              · exact pair_both_notKept _ _ _ _ _ _
               · exact knowStage_rsecond (i1 := i1) s2 i2 _ rfl
-              · exact pair_first_unprot _ _ _ _ _
+              · exact pair_first_unprot _ _ _ _ _ _
 
 theorem optLoop_inv (c : Code) : ∀ (fuel : Nat) (s : OptSt), Inv c s.code → Inv c (optLoop fuel s).code := by
   intro fuel
